@@ -518,7 +518,10 @@ fn pre_epoch_checks(dir: &Path, size: u64, secs: u64, nanos: u32, acc: &mut Acc)
     let p = dir.join("old");
     write_file(&p, size);
     let t = std::time::UNIX_EPOCH - Duration::new(secs, nanos);
-    File::options().write(true).open(&p).unwrap().set_modified(t).expect("set_modified");
+    if File::options().write(true).open(&p).unwrap().set_modified(t).is_err() {
+        acc.count("pre-epoch-mtime-not-stored-on-this-filesystem");
+        return Ok(());
+    }
     let md = std::fs::metadata(&p).unwrap();
     if md.modified().unwrap() >= std::time::UNIX_EPOCH {
         acc.count("pre-epoch-mtime-not-stored-on-this-filesystem");
@@ -537,7 +540,9 @@ fn pre_epoch_checks(dir: &Path, size: u64, secs: u64, nanos: u32, acc: &mut Acc)
     ensure!(e1 == e2, "etag-unstable", "two instances on the unmodified file have ETags {:?} and {:?}", crate::util::show_bytes(&e1), crate::util::show_bytes(&e2));
     // change-sensitive on that side of the epoch too, and distinct from the mirrored time after it
     for (name, nt) in [("-1ns", t - Duration::from_nanos(1)), ("+1ns", t + Duration::from_nanos(1)), ("-1s", t - Duration::from_secs(1)), ("mirrored", std::time::UNIX_EPOCH + Duration::new(secs, nanos))] {
-        File::options().write(true).open(&p).unwrap().set_modified(nt).expect("set_modified");
+        if File::options().write(true).open(&p).unwrap().set_modified(nt).is_err() {
+            continue;
+        }
         if std::fs::metadata(&p).unwrap().modified().unwrap() != md.modified().unwrap() {
             let (e, _) = tag(&p)?;
             ensure!(e != e1, format!("etag-insensitive:pre-epoch-mtime{name}"), "mtime changed from {t:?} to {nt:?} but the ETag stayed {:?}", crate::util::show_bytes(&e));
@@ -796,7 +801,7 @@ pub fn replay(_cx: &Cx, _phase: &str, case: &Value, acc: &mut Acc) -> Check {
 
 pub fn health(acc: &Acc) -> Vec<String> {
     let mut v = Vec::new();
-    for l in ["plain", "plain:crosses-boundary", "truncated:error", "grown", "interleaved-streams", "metadata:stable", "metadata:length-change", "nonregular:directory", "nonregular:dev-null"] {
+    for l in ["plain", "plain:crosses-boundary", "truncated:error", "grown", "interleaved-streams", "metadata:stable", "metadata:stable-after-inode-op", "metadata:length-change", "nonregular:directory", "nonregular:dev-null"] {
         if acc.label(l) < 1 {
             v.push(format!("label {l} never seen"));
         }
